@@ -363,8 +363,11 @@ class DiskFile(VirtualFileContainer):
             fat_entry = fat[granule]
             if (fat_entry & 0xC0) == 0xC0:
                 is_last_granule = True
-                total_bytes += ((fat_entry & 0x1F) - 1) * DiskConstants.BYTES_PER_SECTOR
-                total_bytes += bytes_in_last_sector
+                sectors_used = fat_entry & 0x1F
+                if sectors_used > 0:
+                    # no sector of the last granule in use: the file ends with the granule before it
+                    total_bytes += (sectors_used - 1) * DiskConstants.BYTES_PER_SECTOR
+                    total_bytes += bytes_in_last_sector
             else:
                 total_bytes += DiskConstants.HALF_TRACK_LEN
                 granule = fat_entry
